@@ -42,6 +42,8 @@ var litmusTests = []litmusCase{
 	{"close-closed", 1, []string{"P"}, ""},
 	{"race-plain", 1, nil, "race"},
 	{"race-map", 1, nil, "race"},
+	{"race-map-range", 1, nil, "race"},
+	{"race-delete", 1, nil, "race"},
 	{"race-after-unlock", 2, nil, "race"},
 	{"norace-mutex", 2, nil, "norace"},
 	{"norace-channel", 2, nil, "norace"},
